@@ -1329,16 +1329,49 @@ func (n *normalizer) pureExprRound() bool {
 				if !isSel {
 					return true
 				}
-				if s := n.info.Selections[sel]; s == nil || s.Kind() != types.MethodVal || len(s.Index()) != 1 || s.Indirect() {
-					return true
-				}
-				// receiver and argument of the same kind (no implicit & or *)
+				// receiver and argument of the same kind (no implicit & or *); with a pointer operand the selection counts as
+				// indirect although nothing is dereferenced implicitly
 				_, recvPtr := sig.Recv().Type().(*types.Pointer)
 				_, argPtr := n.info.TypeOf(sel.X).Underlying().(*types.Pointer)
-				if recvPtr != argPtr {
+				if s := n.info.Selections[sel]; s == nil || s.Kind() != types.MethodVal || len(s.Index()) != 1 || (s.Indirect() && !argPtr) {
 					return true
 				}
 				rids := fieldIdents(fd.Recv)
+				if recvPtr && !argPtr {
+					// p.m() with m on *T and p an addressable variable: (&p).m(). When the body mentions the receiver only as
+					// the operand of field selections, l.f is (&p).f, i.e. p.f
+					if _, isVar := ast.Unparen(sel.X).(*ast.Ident); !isVar || len(rids) != 1 {
+						return true
+					}
+					robj := n.info.Defs[rids[0]]
+					onlySel := true
+					var par []ast.Node
+					ast.Inspect(ret.Results[0], func(y ast.Node) bool {
+						if y == nil {
+							par = par[:len(par)-1]
+							return true
+						}
+						if id, isID := y.(*ast.Ident); isID && n.info.Uses[id] == robj {
+							se, isSel := (ast.Node)(nil), false
+							if len(par) > 0 {
+								se = par[len(par)-1]
+								_, isSel = se.(*ast.SelectorExpr)
+							}
+							if !isSel || se.(*ast.SelectorExpr).X != ast.Expr(id) {
+								onlySel = false
+							} else if s2 := n.info.Selections[se.(*ast.SelectorExpr)]; s2 == nil || s2.Kind() != types.FieldVal {
+								onlySel = false
+							}
+						}
+						par = append(par, y)
+						return true
+					})
+					if !onlySel {
+						return true
+					}
+				} else if recvPtr != argPtr {
+					return true
+				}
 				if len(rids) == 1 {
 					bind(rids[0], sel.X)
 				}
